@@ -52,17 +52,24 @@ rintT(e, n, h, PT, MT, a) ==
 Rint(e, c, a, b, k) == RintT(e, Len(c.K), MaxHalf(e), PTab(e, c, k), a, b)
 rint(e, c, a, k) == rintT(e, Len(c.K), MaxHalf(e), PTab(e, c, k), MTab(e, c, k), a)
 
-\* ---- the law: a trajectory logged in two limbs of 1e-6 (value x 1e6 = hi x 1000 + lo) solves R c = r
+\* ---- the law: a trajectory logged in four limbs of three decimal digits (value x 1000 = l1 + l2/1e3 + l3/1e6 + l4/1e9, l2..l4 in
+\* 0..999, the last one rounded) solves R c = r "to rounding accuracy": the residual, accumulated limb by limb so that every
+\* intermediate stays far inside 32 bits, is bounded by the quantisation of the last limb (half a unit of 1e-12 per unit of |R|) plus
+\* as much again for the solver's own rounding (a backward-stable band solve leaves a residual orders of magnitude smaller).
 \* (TLC re-evaluates LET definitions at every use inside actions; values are therefore bound with
 \*  "\A x \in {expr}", which evaluates expr once)
 RowOK(e, c, h, PT, MT, a, k) ==
   LET n == Len(c.K)
       lo == IF a - 2 * h < 1 THEN 1 ELSE a - 2 * h    hi == IF a + 2 * h > n THEN n ELSE a + 2 * h
   IN \A Row \in {[b \in lo..hi |-> RintT(e, n, h, PT, a, b)]} :                \* the row of R, computed once
+     \A L1 \in {SumF(LAMBDA b : Abs(Row[b]), lo, hi)} :
      \A D \in {SumF(LAMBDA b : Row[b] * e.traj[c.K[b]][k+1][1], lo, hi) - 1000 * rintT(e, n, h, PT, MT, a)} :
-     LET B  == SumF(LAMBDA b : Row[b] * e.traj[c.K[b]][k+1][2], lo, hi)
-         L1 == SumF(LAMBDA b : Abs(Row[b]), lo, hi)
-     IN Abs(D) <= 1000000 /\ Abs(1000 * D + B) <= (L1 \div 2) + (L1 \div 1000) + 2
+     /\ Abs(D) <= L1 + 2
+     /\ \A X1 \in {1000 * D + SumF(LAMBDA b : Row[b] * e.traj[c.K[b]][k+1][2], lo, hi)} :
+          /\ Abs(X1) <= L1 + 2
+          /\ \A X2 \in {1000 * X1 + SumF(LAMBDA b : Row[b] * e.traj[c.K[b]][k+1][3], lo, hi)} :
+               /\ Abs(X2) <= L1 + 2
+               /\ Abs(1000 * X2 + SumF(LAMBDA b : Row[b] * e.traj[c.K[b]][k+1][4], lo, hi)) <= L1 + 2
 Law(e) == \A c \in {Ctx(e)} : \A h \in {MaxHalf(e)} :
   /\ Len(e.traj) = Len(c.F) /\ Len(e.nodata) = Len(c.F)
   /\ \A t \in 1..Len(c.F) : e.nodata[t] = ~c.V[t]                        \* unvoiced frames carry the no-data marker
